@@ -212,14 +212,14 @@ def run_ops(cell, g, fails):
                 wm, wc = fm(m), fc(C)
             fails.check_close("arith" + name, o.mean, wm, 1e-10, 1e-12)
             fails.check_close("arith" + name, o.covariance_matrix, wc, 1e-10, 1e-12)
-            n += 1
+            n += 1 + derived_consistency(o, wm, wc, g, fails, "arith" + name)
     with fails.guard("expand"):
         e = d.expand(torch.Size([4, *bs]))
         fails.check_close("expand", e.mean, m.expand(4, *bs, N), 0, 0)
         fails.check_close("expand", e.covariance_matrix, C.expand(4, *bs, N, N), 1e-12, 0)
         v = util.randn(g, 4, *bs, N)
         fails.check_close("expand", e.log_prob(v), torch.distributions.MultivariateNormal(m, C).log_prob(v), 1e-8, 1e-9)
-        n += 1
+        n += 1 + derived_consistency(e, m.expand(4, *bs, N), C.expand(4, *bs, N, N), g, fails, "expand")
     for dim in range(-len(bs) - 1, len(bs) + 1):
         with fails.guard("unsqueeze"):
             u = d.unsqueeze(dim)
@@ -227,13 +227,35 @@ def run_ops(cell, g, fails):
             wc = C.unsqueeze(dim if dim >= 0 else dim - 2)
             fails.check_close("unsqueeze", u.mean, wm, 0, 0, f"dim={dim}")
             fails.check_close("unsqueeze", u.covariance_matrix, wc, 1e-12, 0, f"dim={dim}")
-            n += 1
+            n += 1 + derived_consistency(u, wm, wc, g, fails, "unsqueeze")
     with fails.guard("add_jitter"):
         j = d.add_jitter(1e-2)
         fails.check_close("add_jitter", j.covariance_matrix, C + 1e-2 * torch.eye(N, dtype=F64), 1e-12, 1e-12)
         fails.check_close("add_jitter", j.mean, m, 0, 0)
         n += 1
     return n
+
+
+def derived_consistency(o, wm, wc, g, fails, sub):
+    """a distribution produced by an operation must itself be the distribution N(wm, wc): log_prob on both paths, scale_tril"""
+    v = util.randn(g, *wm.shape)
+    ref = torch.distributions.MultivariateNormal(wm, wc).log_prob(v)
+    for fast in (True, False):
+        try:
+            with gpytorch.settings.fast_computations(log_prob=fast):
+                got = o.log_prob(v)
+            ok, msg = util.close(got, ref, 1e-8, 1e-9)
+            if not ok:
+                fails.add(sub, f"log_prob of the result (fast={fast}) != log N(v; mean, cov) of the result: err={msg}")
+        except Exception as e:
+            fails.add(sub, f"log_prob of the result (fast={fast}) raises: {util.exc_str(e)}")
+    L = o.scale_tril
+    ok, msg = util.close(L @ L.mT, wc, 1e-8, 1e-9)
+    if not ok:
+        fails.add(sub, f"scale_tril of the result: L L^T != covariance: err={msg}")
+    if float(L.diagonal(dim1=-1, dim2=-2).min()) <= 0 or float(L.triu(1).abs().max() if L.shape[-1] > 1 else 0.0) > 0:
+        fails.add(sub, "scale_tril of the result is not a lower Cholesky factor (non-positive diagonal or upper entries)")
+    return 3
 
 
 def run_getitem(cell, g, fails, feats):
